@@ -9,12 +9,14 @@ package cmd
 
 import (
 	"bytes"
+	"encoding/json"
 	"errors"
 	"io/fs"
 	"os"
 	"path/filepath"
 	"time"
 
+	"github.com/ajitpratap0/GoSQLX/cmd/gosqlx/internal/output"
 	"github.com/ajitpratap0/GoSQLX/pkg/gosqlx"
 	vx "github.com/ajitpratap0/GoSQLX/zzvx"
 )
@@ -473,3 +475,93 @@ func VxC19_Validate() {
 func VxC19_Format3()       { vxNFiles = 3; VxC19_Format() }
 func VxC19_InPlaceFault3() { vxNFiles = 3; VxC19_InPlaceFault() }
 func VxC19_Validate3()     { vxNFiles = 3; VxC19_Validate() }
+
+// VxC19_Reports: the machine-readable reports of validate name exactly the failing inputs and are
+// well-formed JSON (the encoders run on the host's encoding/json through the engine's bridge).
+func VxC19_Reports() {
+	orig := vxC19Setup()
+	var out, errb bytes.Buffer
+	v := NewValidator(&out, &errb, ValidatorOptions{Quiet: true})
+	names := vxC19Names[:vxNFiles]
+	res, err := v.Validate(names)
+	if err != nil || res == nil {
+		return
+	}
+	var failing []string
+	for k := range orig {
+		fr := res.Files[k]
+		if !(fr.Error == nil && fr.Valid) {
+			failing = append(failing, names[k])
+		}
+	}
+	sameSet := func(got []string) bool {
+		if len(got) != len(failing) {
+			return false
+		}
+		for _, g := range got {
+			hit := false
+			for _, f := range failing {
+				if f == g {
+					hit = true
+				}
+			}
+			if !hit {
+				return false
+			}
+		}
+		return true
+	}
+
+	jb, jerr := output.FormatValidationJSON(res, names, false)
+	vx.Assertf("C19.json_report_wellformed", jerr == nil && json.Valid(jb), "JSON report is not well-formed: %v", jerr)
+	var jr struct {
+		Results struct {
+			Valid        bool `json:"valid"`
+			InvalidFiles int  `json:"invalid_files"`
+		} `json:"results"`
+		Errors []struct {
+			File string `json:"file"`
+		} `json:"errors"`
+	}
+	if jerr == nil && json.Unmarshal(jb, &jr) == nil {
+		var got []string
+		for _, e := range jr.Errors {
+			got = append(got, e.File)
+		}
+		vx.Assertf("C19.json_report_names_failing", sameSet(got), "JSON report names %v, failing inputs are %v", got, failing)
+		vx.Assertf("C19.json_report_verdict", jr.Results.Valid == (len(failing) == 0), "JSON report valid=%v with %d failing inputs", jr.Results.Valid, len(failing))
+	}
+
+	sb, serr := output.FormatSARIF(res, "v")
+	vx.Assertf("C19.sarif_report_wellformed", serr == nil && json.Valid(sb), "SARIF report is not well-formed: %v", serr)
+	var sr struct {
+		Version string `json:"version"`
+		Runs    []struct {
+			Results []struct {
+				Locations []struct {
+					PhysicalLocation struct {
+						ArtifactLocation struct {
+							URI string `json:"uri"`
+						} `json:"artifactLocation"`
+					} `json:"physicalLocation"`
+				} `json:"locations"`
+			} `json:"results"`
+		} `json:"runs"`
+	}
+	if serr == nil && json.Unmarshal(sb, &sr) == nil {
+		vx.Assertf("C19.sarif_version", sr.Version == "2.1.0" && len(sr.Runs) == 1, "SARIF version %q, %d runs", sr.Version, len(sr.Runs))
+		var got []string
+		if len(sr.Runs) == 1 {
+			for _, r := range sr.Runs[0].Results {
+				for _, l := range r.Locations {
+					got = append(got, l.PhysicalLocation.ArtifactLocation.URI)
+				}
+			}
+		}
+		vx.Assertf("C19.sarif_report_names_failing", sameSet(got), "SARIF report names %v, failing inputs are %v", got, failing)
+	}
+}
+
+// VxFingerprint stands in for output.generateFingerprint under the engine (SHA-256 is not
+// interpreted; the fingerprint is not part of any assertion).
+func VxFingerprint(path, ruleID, message string) string { return "0000000000000000" }
